@@ -2,14 +2,14 @@ from .base import *
 
 ID = 'C05'
 THEOREMS = ['C05_mul', 'C05_mul_spellings', 'C05_mul_comm', 'C05_mul_one', 'C05_mul_angle', 'C05_scale',
-            'C05_angle_mul', 'C05_inv', 'C05_inv_angle', 'C05_div_spellings', 'C05_normalize', 'C05_pow_mag', 'C05_assoc', 'C05_inv_inv']
+            'C05_angle_mul', 'C05_inv', 'C05_inv_angle', 'C05_div_spellings', 'C05_normalize', 'C05_pow_mag', 'C05_pow_angle', 'C05_assoc', 'C05_inv_inv']
 OWNED = {'GMul', 'GDiv', 'GDivM', 'GInv', 'GScale', 'GNormalize', 'GPow', 'AMulG', 'AAddG'}
 RULE = ('pairs/triples of geometric numbers from the C01 domain (magnitudes 0, 1, 1e+-100, k-ulp neighbours, log-uniform; remainder threshold classes; blades to 2^40): '
         'all 4 spellings of * and /, the div method, Angle*Geonum and Angle+Geonum in both forms, scale by {0,-0,+-1,+-tiny,+-huge,random}, inv, normalize, pow, identity, commutativity, associativity; '
         'zero-magnitude divisors for the documented panics. non-trivial = owned op result differs from its operands')
 TRUSTED = TRUSTED_COMMON
 ASSUMPTIONS = ASSUME_COMMON + ['pow: magnitude is libm pow(mag, n) (C05_pow_mag holds for every libm); its numeric accuracy is glibc\'s, checked by predicate pow_mag against mpmath']
-S3_LEGS = ['associativity of * up to rounding and tolerance: predicate geonum_close', 'inv(inv g): predicate', 'pow angle = n * angle: through Angle::new(n,1) + geometric_add, covered by correspondence only']
+S3_LEGS = ['associativity of * (theorem C05_assoc: magnitudes within 3 roundings, angles by C03) and inv(inv g) (theorem C05_inv_inv) are proved for finite non-underflowing products; outside those hypotheses (overflow / underflow to zero) only the predicate geonum_close decides', "pow: the property claims the magnitude only (C05_pow_mag, numeric accuracy of libm pow by predicate pow_mag); the angle is what the code computes - the blade-exact sum with Angle::new(n, 1), i.e. n half turns added (C05_pow_angle), not the rustdoc's n*theta; no further claim is made about it"]
 
 SCALES = [0.0, -0.0, 1.0, -1.0, 5e-324, -5e-324, 1e-300, -1e-300, 1e100, -1e100, 2.0, -2.0, 0.5, -3.5]
 
@@ -73,6 +73,6 @@ def generate(rng, tier):
 
 LEVEL_TEXT = ('Kernel-checked theorems about the model for ALL operands: product = (fmul of magnitudes, geometric_add of angles) in all 4 spellings, bit-for-bit commutative, '
               '[1,0] is an identity, angle of the product canonical with blade carry in {0,1} and total within 1e-10+2^-51; scale multiplies by |f| and adds exactly 2 blades iff f<0; '
-              'Angle*Geonum / Angle+Geonum only rotate; inv/normalize panic exactly on zero magnitude, inv = (1/mag, +2 blades); the 5 division spellings equal a * inv b; pow magnitude is powF. '
+              'Angle*Geonum / Angle+Geonum only rotate; inv/normalize panic exactly on zero magnitude, inv = (1/mag, +2 blades); the 5 division spellings equal a * inv b; pow magnitude is powF and its angle is the blade-exact sum with Angle::new(n, 1) (C05_pow_angle: what the code does; the property claims the magnitude only). '
               'C05_assoc: (ab)c and a(bc) have magnitudes within 5*2^-53 relative (+2^-572) and angle totals within four addition tolerances (also with the REAL pi, +2e-16). C05_inv_inv: inv(inv g) has the original magnitude within 5*2^-52 relative and the original angle plus exactly four blades, remainder untouched (magnitudes in [2^-500, 2^500]). The pow angle is decided by predicate search (S3).')
 LEVEL_NOTE = ('Trusted: Coq kernel + vm_compute; 4 standard-library axioms; plus the primitive-integer axioms (PrimInt63.*, Uint63.*_spec) of the Interval tactic for the real-pi clause of C05_assoc; hand-written model validated bit-for-bit each run; harness/emitter/predicates; glibc pow only through the model parameter L (no assumption used by these theorems).')
